@@ -1001,7 +1001,7 @@ func main() {
 		Property: "C12",
 		Level:    "exploration",
 		Rule: "oracle = CPython zlib (python3 oracles/inflate.py, raw deflate window 15) in a pool of subprocesses; the library runs with Go's compress/flate as the user-supplied codec. (a) writer: 12 payload classes (empty, 1 byte, incompressible 100/4K/70K, compressible 1K/40K/200K > window, text-like, zero runs, random) x flate levels {-2,-1,0,1,2,5,6,9} x resettable / non-resettable compressors x random write splits with Flush after random writes x end {Flush, Flush+Close, Flush+Flush, Close with no Flush after the last Write} x fresh / reused writer: zlib must inflate output ++ 00 00 ff ff to the message, and the library reader must recover it under 3 chunk plans; " +
-			"(b) reader: zlib streams (levels 0-9, strategies default/fixed/huffman/rle/filtered, memLevel 1-9, inner sync/full flushes, final sync or full flush minus the 4-byte tail, or a final BFINAL=1 block plus the 00 octet of RFC 7692 §7.2.3.4), read through byte-reader and plain-reader sources under 4 chunk plans and 4 buffer sizes; (c) frame helpers: header/payload round trip, RSV1+Length only, non-final refused, pass-through; (d) tail logic with fake compressors ending a flush with 7 different suffixes and odd chunkings, and (e) writers REUSED through Reset for 2-5 messages whose (resettable or rebuilt) compressor ends each flush with a scripted good or bad suffix: every message is judged on its own. distinct = (payload class, level/strategy, mode) classes.",
+			"(b) reader: zlib streams (levels 0-9, strategies default/fixed/huffman/rle/filtered, memLevel 1-9, inner sync/full flushes, final sync or full flush minus the 4-byte tail, or a final BFINAL=1 block plus the 00 octet of RFC 7692 §7.2.3.4), read through byte-reader and plain-reader sources under 4 chunk plans and 4 buffer sizes; (c) frame helpers: header/payload round trip, RSV1+Length only, non-final refused, pass-through; (d) tail logic with fake compressors ending a flush with 7 different suffixes and odd chunkings, and (e) writers REUSED through Reset for 2-5 messages whose (resettable or rebuilt) compressor ends each flush with a scripted good or bad suffix: every message is judged on its own; (f) preset-dictionary codecs (flate.NewWriterDict / NewReaderDict constructors) behind one connection-long Writer and Reader, 2-6 messages each judged against a new dictionary-primed decoder. distinct = (payload class, level/strategy, mode) classes.",
 		Assumptions: []string{"CPython zlib 1.2.13 is the independent DEFLATE implementation", "python3 is on PATH (pre-installed in the image)"},
 		Setup: func(r *mon.Run) {
 			var err error
@@ -1011,6 +1011,6 @@ func main() {
 				os.Exit(3)
 			}
 		},
-		Subs: []mon.Sub{subWriterVsZlib(), subZlibVsReader(), subFrames(), subTailLogic(), subTailReuse(), subRefusing()},
+		Subs: []mon.Sub{subWriterVsZlib(), subZlibVsReader(), subFrames(), subTailLogic(), subTailReuse(), subRefusing(), subPresetDict()},
 	})
 }
